@@ -189,6 +189,13 @@ class Roles:
             cs = [c for c in self.callers_of_any(self.sd_method('InsertDataItem'), self.global_reach)
                   if c is not self.seeding and c.cls is not None and c.cls.name != 'SearchData'
                   and not c.cls.is_subclass_of(self.ix.cls('SearchData'))]
+            if len(set(cs)) > 1:
+                # the renewal routine is the caller that also refreshes interval lengths; any other caller is
+                # reported by the completeness rule (R06.6) instead of hiding behind an ambiguity
+                dw = {self.fq(m.func) for m in self.attr_writers('delta', self.ix.cls('SearchDataItem'))}
+                pref = [c for c in cs if self.fq(c) in dw]
+                if len(set(pref)) == 1:
+                    cs = pref
             return self._unique('renewal routine', cs, 'caller of InsertDataItem on the per-iteration path')
         return self.memo('renewal', build)
 
